@@ -445,6 +445,32 @@ var differs = []differ{
 		}
 		return false
 	}},
+	{"plugin-config-falsy-scalar-vs-null", func(t *rapid.T, w *world) bool {
+		// null / {} (no config) versus false, 0 or "" as the whole config: different content
+		for _, p := range w.Step.Plugins {
+			switch c := p.Config.(type) {
+			case nil:
+				p.Config = rapid.SampledFrom([]any{false, 0, ""}).Draw(t, "falsy")
+				return true
+			case map[string]any:
+				if len(c) == 0 {
+					p.Config = rapid.SampledFrom([]any{false, 0, ""}).Draw(t, "falsy")
+					return true
+				}
+			case bool:
+				if !c {
+					p.Config = rapid.SampledFrom([]any{nil, 0, ""}).Draw(t, "falsy2")
+					return true
+				}
+			case string:
+				if c == "" {
+					p.Config = rapid.SampledFrom([]any{nil, 0, false}).Draw(t, "falsy3")
+					return true
+				}
+			}
+		}
+		return false
+	}},
 	// single-point content changes
 	{"command-change", func(t *rapid.T, w *world) bool { w.Step.Command += "!"; return true }},
 	{"repo-change", func(t *rapid.T, w *world) bool { w.Repo += "!"; return true }},
